@@ -31,6 +31,9 @@ pub struct Config {
     /// expressions `E` becomes `|| -> (o: TYPE) ensures o == E { E }` (Verus attaches no postcondition to an
     /// unannotated closure; the postcondition added is the closure's own body)
     pub closure_post: Vec<(String, String)>,
+    /// R-closurepost, closures with parameters: normalized closure source (`|len|len+len0`) -> typed header
+    /// (`|len: &usize| -> (o: usize)`); the rule emits `HEADER ensures o == BODY { BODY }`
+    pub closure_sig: Vec<(String, String)>,
     /// R-mirror: every assignment `X = E` to one of these variables is followed by a ghost copy of the new
     /// value into the named ghost out-parameter: `{ X = E; proof { *G.borrow_mut() = X; } }`
     pub mirror: Vec<(String, String)>,
@@ -71,6 +74,10 @@ impl Config {
             mirror: v["mirror"]
                 .as_object()
                 .map(|m| m.iter().map(|(k, t)| (k.clone(), t.as_str().unwrap_or("").to_string())).collect())
+                .unwrap_or_default(),
+            closure_sig: v["closure_sig"]
+                .as_object()
+                .map(|m| m.iter().map(|(k, t)| (norm(k), t.as_str().unwrap_or("").to_string())).collect())
                 .unwrap_or_default(),
             closure_post: v["closure_post"]
                 .as_object()
@@ -600,6 +607,26 @@ impl<'a, 'ast> Visit<'ast> for Rewriter<'a> {
                         Piece::Lit(format!("-> (o: {}) ensures o == ", ty)),
                         Piece::Src(br.0, br.1),
                         Piece::Lit(" { ".into()),
+                        Piece::Src(br.0, br.1),
+                        Piece::Lit(" }".into()),
+                    ],
+                    "R-closurepost",
+                );
+                self.note("R-closurepost", c.span());
+                return;
+            }
+        }
+        if !c.inputs.is_empty() && matches!(c.output, ReturnType::Default) {
+            let whole = self.r(c.span());
+            let src = norm(self.sf.slice(whole));
+            if let Some((_, hdr)) = self.cfg.closure_sig.iter().find(|(k, _)| *k == src) {
+                let br = self.r(c.body.span());
+                self.edits.replace(
+                    whole,
+                    vec![
+                        Piece::Lit(format!("{} ensures o == (", hdr)),
+                        Piece::Src(br.0, br.1),
+                        Piece::Lit(") { ".into()),
                         Piece::Src(br.0, br.1),
                         Piece::Lit(" }".into()),
                     ],
